@@ -1104,7 +1104,7 @@ func (ip *Interp) call(fr *frame, call *ast.CallExpr, want types.Type) *Value {
 		return &Value{V: Convert(x.V, false, w), Sign: sg}
 	}
 	if fn.Pkg() != nil && fn.Pkg().Path() == "encoding/binary" {
-		// binary.BigEndian / binary.LittleEndian: PutUintN(b, v), UintN(b), AppendUintN is not modelled
+		// binary.BigEndian / binary.LittleEndian: PutUintN(b, v), UintN(b), AppendUintN(b, v)
 		sel, _ := ast.Unparen(call.Fun).(*ast.SelectorExpr)
 		order := ""
 		if sel != nil {
@@ -1115,7 +1115,31 @@ func (ip *Interp) call(fr *frame, call *ast.CallExpr, want types.Type) *Value {
 		}
 		little := strings.Contains(strings.ToLower(order), "little")
 		big := strings.Contains(strings.ToLower(order), "big")
-		width := map[string]int{"PutUint16": 2, "PutUint32": 4, "PutUint64": 8, "Uint16": 2, "Uint32": 4, "Uint64": 8}[fn.Name()]
+		width := map[string]int{"PutUint16": 2, "PutUint32": 4, "PutUint64": 8, "Uint16": 2, "Uint32": 4, "Uint64": 8, "AppendUint16": 2, "AppendUint32": 4, "AppendUint64": 8}[fn.Name()]
+		if strings.HasPrefix(fn.Name(), "Append") && width != 0 && little != big && len(call.Args) == 2 {
+			// AppendUintN(b, v): the bytes of v behind the len(b) bytes b already holds
+			bv := ip.expr(fr, call.Args[0], nil)
+			x := ip.expr(fr, call.Args[1], nil)
+			if bv == nil || bv.B == nil || x == nil || x.V == nil {
+				if bv != nil && bv.B == nil {
+					ip.fail(fr, call, "encoding/binary on something other than a byte slice")
+				}
+				return nil
+			}
+			nb := &Bytes{Name: bv.B.Name, Cells: map[int]Vec{}, Len: bv.B.Len + width, Shift: bv.B.Shift}
+			for k, v := range bv.B.Cells {
+				nb.Cells[k] = v
+			}
+			xv := Convert(x.V, false, 8*width)
+			for i := 0; i < width; i++ {
+				sh := 8 * i
+				if big {
+					sh = 8 * (width - 1 - i)
+				}
+				nb.Set(bv.B.Len+i, Convert(Shr(xv, sh, false), false, 8))
+			}
+			return &Value{B: nb}
+		}
 		if width == 0 || little == big {
 			ip.fail(fr, call, "encoding/binary.%s is not modelled", fn.Name())
 			return nil
